@@ -699,6 +699,11 @@ impl<'a> G<'a> {
                     self.emit_flag(ins, Flag::ViolOnly);
                 }
             }
+        } else if self.rng.chance(0.15) {
+            // the number travels through another register first
+            let via = f.never;
+            self.emit(Ins::li(via, num as i32));
+            self.emit(Ins::mv(A7, via));
         } else {
             self.emit(Ins::li(A7, num as i32));
         }
